@@ -20,7 +20,7 @@ use serde_json::json;
 use crate::engine::{idx, journal, Case, Ctx, Job, Sm64};
 use crate::session::threadpool;
 
-pub const RULE: &str = "reconstruction plans: 1-5 virtual xorbs (2-20 chunks of 1-200 bytes with pairwise distinct contents, stored uncompressed or LZ4), 1-40 terms (repeated xorbs, differing sizes), fetch ranges that contain the term ranges (often strictly larger, several terms per fetch range), one URL per (xorb, fetch range), optional byte range [a,b) inside the file (single byte, whole file, starting / ending mid-term or exactly on a term boundary, including a first listed term that the offset skips entirely) with the term list trimmed and offset_into_first_range set the way a server does; each plan is reconstructed with the sequential and the parallel writer, without cache, with a cold disk chunk cache and again warm, against a local HTTP range server (127.0.0.1) that delays each response by a generated amount and counts requests; NUM_CONCURRENT_RANGE_GETS in {1, 2, 16} per child process. Oracle: output file = concatenated term data sliced by the byte range, returned length = slice length = output size, sequential = parallel, warm = cold (whether the warm pass needed the network is reported, not asserted). non-trivial = plan with >= 3 terms, a fetch range strictly larger than a term, and a byte range starting and ending mid-term; distinct by fingerprint of the generated plan";
+pub const RULE: &str = "reconstruction plans: 1-5 virtual xorbs (2-20 chunks of 1-200 bytes with pairwise distinct contents, stored uncompressed or LZ4), 1-40 terms (repeated xorbs, differing sizes), fetch ranges that contain the term ranges (often strictly larger, several terms per fetch range), one URL per (xorb, fetch range), optional byte range [a,b) inside the file (single byte, whole file, starting / ending mid-term or exactly on a term boundary, including a first listed term that the offset skips entirely) with the term list trimmed and offset_into_first_range set the way a server does; each plan is reconstructed with the sequential and the parallel writer, without cache, with a cold disk chunk cache and again warm, against a local HTTP range server (127.0.0.1) that delays each response by a generated amount and counts requests; NUM_CONCURRENT_RANGE_GETS in {1, 2, 16} per child process. Oracle: output file = concatenated term data sliced by the byte range, returned length = slice length = output size, sequential = parallel, warm = cold (whether the warm pass needed the network is reported, not asserted). non-trivial = plan with >= 3 terms, a fetch range strictly larger than a term, and a byte range starting and ending mid-term; distinct by fingerprint of the generated plan Stream 'huge' (2 cases quick, 16 thorough, one process): one xorb of 256-512 incompressible chunks of 32-128 KiB, terms = generated sub-ranges of it cycled until the file reaches 2^32 + delta bytes (delta from -70 000 to +500 MiB), whole file or a byte range whose start lies in the first 200 MiB and whose length is 2^32 + a small or large signed delta; both writers without cache; the output file is compared with the requested slice term by term without holding the file in memory; non-trivial there = >= 2^32 requested bytes.";
 
 pub const ASSUMPTIONS: &[&str] = &[
     "fetch URLs are unique per (xorb, fetch range), as production URLs that embed the signed range are (the download de-duplication is keyed by URL only)",
@@ -401,18 +401,9 @@ fn run_once(client: Arc<RemoteClient>, m: &Materialized, parallel: bool, out: &P
     }
 }
 
-fn oracle(p: &Plan, info: &mut Case) -> Result<(), String> {
-    journal(&serde_json::to_string(p).unwrap_or_default());
-    let srv = server();
-    let m = materialize(p, srv.port);
-    srv.set(m.blobs.clone(), p.delays_us.clone());
-    let want: Vec<u8> = match m.byte_range {
-        None => m.file.clone(),
-        Some((a, b)) => m.file[a as usize..b as usize].to_vec(),
-    };
-    let tmp = tempfile::Builder::new().prefix("xvr-").tempdir_in(crate::engine::work_dir()).map_err(|e| format!("[sig:infra] tempdir: {e}"))?;
-    // one client without cache and one with a disk cache per process (building the HTTP machinery
-    // is expensive); xorb hashes are plan-specific, so plans do not see each other's cache entries
+/// one client without cache and one with a disk cache per process (building the HTTP machinery
+/// is expensive); xorb hashes are plan-specific, so plans do not see each other's cache entries
+fn clients(srv: &Arc<RangeServer>) -> (Arc<RemoteClient>, Arc<RemoteClient>) {
     static CLIENTS: std::sync::OnceLock<(Arc<RemoteClient>, Arc<RemoteClient>, tempfile::TempDir)> = std::sync::OnceLock::new();
     let (c0, c1, _) = CLIENTS.get_or_init(|| {
         let tp = threadpool();
@@ -427,7 +418,187 @@ fn oracle(p: &Plan, info: &mut Case) -> Result<(), String> {
         };
         (mk(None), mk(Some(dir.path().join("cache"))), dir)
     });
-    let (c0, c1) = (c0.clone(), c1.clone());
+    (c0.clone(), c1.clone())
+}
+
+// ---------------------------------------------------------------------------------------------
+// stream 'huge': files and byte ranges around and beyond 2^32 bytes
+
+#[derive(Clone, Debug, Serialize, Deserialize)]
+pub struct HugePlan {
+    pub seed: u64,
+    /// chunks of the one xorb (each 32..128 KiB)
+    pub n_chunks: u16,
+    /// (start selector, length selector) of the terms, cycled until the file is long enough
+    pub terms: Vec<(u16, u16)>,
+    /// file length to reach: 2^32 + delta
+    pub total_delta: i64,
+    /// byte range: (start, signed distance of the end from start + 2^32), clamped into the file
+    pub range: Option<(u32, i64)>,
+}
+
+fn huge_strategy() -> impl Strategy<Value = HugePlan> {
+    let near = || prop_oneof![2 => -70_000i64..70_000, 1 => -3i64..=3, 2 => 0i64..(400 << 20)];
+    (
+        any::<u64>(),
+        256u16..=512,
+        proptest::collection::vec((any::<u16>(), prop_oneof![1 => any::<u16>(), 2 => 40_000u16..=u16::MAX]), 1..12),
+        prop_oneof![1 => -70_000i64..0, 4 => 1i64..(500 << 20)],
+        proptest::option::weighted(0.5, (crate::gen::edge_u32(200 << 20), near())),
+    )
+        .prop_map(|(seed, n_chunks, terms, total_delta, range)| HugePlan { seed, n_chunks, terms, total_delta, range })
+}
+
+fn huge_oracle(p: &HugePlan, info: &mut Case) -> Result<(), String> {
+    journal(&serde_json::to_string(p).unwrap_or_default());
+    let srv = server();
+    // the xorb: incompressible chunks, stored uncompressed
+    let mut r = Sm64(p.seed);
+    let mut flat: Vec<u8> = Vec::new();
+    let mut chunk_off: Vec<usize> = vec![0];
+    let mut serialized = Vec::new();
+    let mut phys_end: Vec<u32> = Vec::new();
+    for _ in 0..p.n_chunks {
+        let len = (32 << 10) + (r.next() % (96 << 10) as u64) as usize + 1;
+        let d = Sm64(r.next()).bytes(len);
+        serialize_chunk(&d, &mut serialized, Some(CompressionScheme::None)).map_err(|e| format!("[sig:infra] serialize_chunk: {e}"))?;
+        phys_end.push(serialized.len() as u32);
+        flat.extend_from_slice(&d);
+        chunk_off.push(flat.len());
+    }
+    let n = p.n_chunks as u32;
+    let mut xh = [0u8; 32];
+    Sm64(p.seed ^ 0x4067).fill(&mut xh);
+    let xhash = MerkleHash::from(&xh);
+    // terms until the file has the wanted length
+    let want_total = ((1i64 << 32) + p.total_delta) as u64;
+    let mut all_terms: Vec<(u32, u32)> = Vec::new();
+    let mut spans: Vec<(u64, u64)> = Vec::new();
+    let mut total = 0u64;
+    let mut i = 0usize;
+    while total < want_total {
+        let (ss, ls) = p.terms[i % p.terms.len()];
+        i += 1;
+        let start = idx(ss, n as usize) as u32;
+        let mut end = start + 1 + idx(ls, (n - start) as usize) as u32;
+        // the last term is cut (at a chunk boundary) so that the total lands close to the wanted length
+        while end > start + 1 && total + (chunk_off[end as usize] - chunk_off[start as usize]) as u64 > want_total + (128 << 10) {
+            end -= 1;
+        }
+        let len = (chunk_off[end as usize] - chunk_off[start as usize]) as u64;
+        all_terms.push((start, end));
+        spans.push((total, total + len));
+        total += len;
+    }
+    let blob = Arc::new(serialized);
+    let mut blobs: HashMap<String, Arc<Vec<u8>>> = HashMap::new();
+    let mut infos: Vec<CASReconstructionFetchInfo> = Vec::new();
+    for (s, e) in &all_terms {
+        if infos.iter().any(|f| f.range.start == *s && f.range.end == *e) {
+            continue;
+        }
+        let byte_start = if *s == 0 { 0 } else { phys_end[*s as usize - 1] };
+        infos.push(CASReconstructionFetchInfo {
+            range: ChunkRange { start: *s, end: *e },
+            url: format!("http://127.0.0.1:{}/huge?r={s}-{e}", srv.port),
+            url_range: HttpRange { start: byte_start, end: phys_end[*e as usize - 1] - 1 },
+        });
+        blobs.insert(format!("/huge?r={s}-{e}"), blob.clone());
+    }
+    srv.set(blobs, vec![0]);
+    let mut fetch_info = HashMap::new();
+    fetch_info.insert(HexMerkleHash::from(xhash), infos);
+    let fetch_info = Arc::new(fetch_info);
+    let to_term = |k: usize| CASReconstructionTerm {
+        hash: HexMerkleHash::from(xhash),
+        unpacked_length: (spans[k].1 - spans[k].0) as u32,
+        range: ChunkRange { start: all_terms[k].0, end: all_terms[k].1 },
+    };
+    let (start, end) = match p.range {
+        None => (0u64, total),
+        Some((a, d)) => {
+            let a = (a as u64).min(total - 1);
+            let e = (a as i64 + (1i64 << 32) + d).clamp(a as i64 + 1, total as i64) as u64;
+            (a, e)
+        },
+    };
+    let kept: Vec<usize> = (0..all_terms.len()).filter(|k| spans[*k].1 > start && spans[*k].0 < end).collect();
+    let offset = start - spans[kept[0]].0;
+    let terms: Vec<CASReconstructionTerm> = kept.iter().map(|k| to_term(*k)).collect();
+    let byte_range = p.range.map(|_| FileRange { start, end });
+    let want_len = end - start;
+    let tmp = tempfile::Builder::new().prefix("xvr-").tempdir_in(crate::engine::work_dir()).map_err(|e| format!("[sig:infra] tempdir: {e}"))?;
+    let (c0, _) = clients(&srv);
+    for parallel in [true, false] {
+        let what = if parallel { "parallel writer" } else { "sequential writer" };
+        let out = tmp.path().join(if parallel { "par.out" } else { "seq.out" });
+        let (client, t2, fi, br) = (c0.clone(), terms.clone(), fetch_info.clone(), byte_range.clone());
+        let provider = OutputProvider::File(FileProvider::new(out.clone()));
+        let r = threadpool().external_run_async_task(async move {
+            if parallel {
+                client.reconstruct_file_to_writer_parallel(t2, fi, offset, br, &provider, None).await
+            } else {
+                client.reconstruct_file_to_writer(t2, fi, offset, br, &provider, None).await
+            }
+        });
+        let reported = match r {
+            Ok(Ok(n)) => n,
+            Ok(Err(e)) => return Err(format!("[sig:c17-reconstruct-error] reconstruction ({what}) of {want_len} bytes failed: {e}")),
+            Err(e) => {
+                let msg = crate::engine::LAST_PANIC_GLOBAL.lock().unwrap().take().unwrap_or_else(|| format!("{e:?}"));
+                return Err(format!("[sig:{}] panic in code under test (reconstruction of {want_len} bytes): {msg}", crate::engine::panic_signature(&msg)));
+            },
+        };
+        // compare the output with the requested slice, term by term
+        let on_disk = std::fs::metadata(&out).map(|m| m.len()).unwrap_or(0);
+        if on_disk != want_len {
+            return Err(format!("[sig:c17-output-differs] {what}: output has {on_disk} bytes, the requested slice has {want_len} (file of {total} bytes, byte range {:?}, {} terms)", p.range.map(|_| (start, end)), terms.len()));
+        }
+        let mut f = std::io::BufReader::with_capacity(8 << 20, std::fs::File::open(&out).map_err(|e| format!("[sig:infra] open output: {e}"))?);
+        let mut buf = Vec::new();
+        let mut pos = start;
+        for k in &kept {
+            let (ts, te) = spans[*k];
+            let (a, b) = (pos.max(ts), end.min(te));
+            let src = &flat[chunk_off[all_terms[*k].0 as usize] + (a - ts) as usize..chunk_off[all_terms[*k].0 as usize] + (b - ts) as usize];
+            buf.resize(src.len(), 0);
+            f.read_exact(&mut buf).map_err(|e| format!("[sig:infra] read output: {e}"))?;
+            if buf[..] != src[..] {
+                let at = buf.iter().zip(src.iter()).position(|(x, y)| x != y).unwrap_or(0) as u64 + (a - start);
+                return Err(format!("[sig:c17-output-differs] {what}: output differs from the requested slice at offset {at} of {want_len} (file of {total} bytes, byte range {:?})", p.range.map(|_| (start, end))));
+            }
+            pos = b;
+        }
+        if reported != want_len {
+            return Err(format!("[sig:c17-length] {what}: reported length {reported} but {want_len} bytes were requested / written"));
+        }
+        let _ = std::fs::remove_file(&out);
+    }
+    let bad = srv.bad_requests.lock().unwrap().drain(..).collect::<Vec<_>>();
+    if !bad.is_empty() {
+        return Err(format!("[sig:c17-bad-request] the client issued requests the store cannot serve: {:?}", &bad[..bad.len().min(3)]));
+    }
+    info.label(if total >= 1 << 32 { "file>=4GiB" } else { "file-just-below-4GiB" });
+    info.label(if want_len >= 1 << 32 { "requested>=4GiB" } else { "requested<4GiB" });
+    if p.range.is_some() {
+        info.label("huge-with-byte-range");
+    }
+    info.nontrivial_if(want_len >= 1 << 32);
+    info.note = Some(json!({"file_bytes": total, "requested": want_len, "terms": terms.len()}));
+    Ok(())
+}
+
+fn oracle(p: &Plan, info: &mut Case) -> Result<(), String> {
+    journal(&serde_json::to_string(p).unwrap_or_default());
+    let srv = server();
+    let m = materialize(p, srv.port);
+    srv.set(m.blobs.clone(), p.delays_us.clone());
+    let want: Vec<u8> = match m.byte_range {
+        None => m.file.clone(),
+        Some((a, b)) => m.file[a as usize..b as usize].to_vec(),
+    };
+    let tmp = tempfile::Builder::new().prefix("xvr-").tempdir_in(crate::engine::work_dir()).map_err(|e| format!("[sig:infra] tempdir: {e}"))?;
+    let (c0, c1) = clients(&srv);
     let check = |what: &str, got: &(Vec<u8>, u64)| -> Result<(), String> {
         if got.0 != want {
             let at = got.0.iter().zip(want.iter()).position(|(a, b)| a != b).unwrap_or(got.0.len().min(want.len()));
@@ -506,6 +677,7 @@ pub fn run(ctx: &Ctx) {
     std::env::set_var("NO_PROXY", "127.0.0.1,localhost");
     if ctx.is_worker || ctx.replay.is_some() {
         ctx.explore("plans", 1, 1, plan_strategy, oracle);
+        ctx.explore("huge", 1, 1, huge_strategy, huge_oracle);
     } else {
         let per = ctx.tier.pick(700, 12000);
         let mut jobs = Vec::new();
@@ -521,7 +693,15 @@ pub fn run(ctx: &Ctx) {
                 });
             }
         }
-        let results = ctx.run_jobs(jobs, 8);
-        ctx.absorb_with_journal("plans", results);
+        // files around and beyond 2^32 bytes: few cases, one process (each case moves > 8 GiB)
+        jobs.push(Job {
+            name: "huge#0".to_string(),
+            env: BTreeMap::new(),
+            spec: json!({"stream": "huge", "cases": ctx.tier.pick(2, 16), "tidx": 99}),
+            timeout: Duration::from_secs(ctx.tier.pick(1800, 4 * 3600)),
+        });
+        let (huge, plans): (Vec<_>, Vec<_>) = ctx.run_jobs(jobs, 8).into_iter().partition(|r| r.job.name.starts_with("huge"));
+        ctx.absorb_with_journal("plans", plans);
+        ctx.absorb_with_journal("huge", huge);
     }
 }
